@@ -293,7 +293,7 @@ def relations(n, nlab, tier):
     basis = [(t, l) for t in range(n) for l in range(nlab)]
     gen = basis if tier == "thorough" or len(basis) <= 5 else [b for k, b in enumerate(basis) if k % 3 != 1]
     for i, j in itertools.permutations(range(len(gen)), 2):
-        if tier == "thorough" or (i + 2 * j) % 3 == 0:
+        if (tier == "thorough" and (i + j) % 2 == 0) or (i + 2 * j) % 3 == 0:
             rels.append(("superpose", list(gen[i]), list(gen[j])))
     rels.append(("int-driver",))
     rels.append(("superpose-shared", list(basis[0]), list(basis[-1])))
@@ -334,7 +334,7 @@ def run_unit(u):
     grid, li = u["grid"], u["lt"]
     n = len(grid)
     res = dict(evals=0, nontrivial=0, outcomes={}, fails=[], samples=[])
-    quads = [("middle", 1), ("end", 1), ("middle", 3), ("start", 1)] if tier == "quick" else dsm.QUADS
+    quads = [("middle", 1), ("end", 1), ("middle", 3), ("start", 1)] if tier == "quick" else [("start", 1), ("middle", 1), ("end", 1), ("middle", 2), ("middle", 5), ("end", 2), ("start", 3)]
     for kind in dsm_impl.KINDS:
         for ei in range(len(EXTRAS)):
             nlab = len(dsm_impl.labels(EXTRAS[ei]))
